@@ -207,26 +207,18 @@ package node
 // for loops: one context id per iterator, allocated above the ids of the enclosing loops; the body
 // sees all of them (CtxLo..CtxHi) so that a return inside nested loops can delete every one.
 //@ pred varRefOK(n ByteCoder) bool := wfAST(n) && (dyntype(n) == typeid[Name]() || dyntype(n) == typeid[Local]())
-// For.byteCode is verified for panic-freedom, for the preconditions of every child compilation and for
-// the context-id discipline; its own K1/K2 postconditions are NOT discharged (the solvers time out on
-// the three-loop emission proof) and are therefore an assumption wherever a for loop is a child.
-//@ func (For).byteCode [C05,C12,C09,C02]
-//@   requires[sel] 0 <= srcsel && srcsel <= 2
-//@   requires[cr]  crOK(cr)
-//@   requires[flags] !(fl.Data().Discard && fl.Data().Returning) && fl.Data().OpDepth == 0
-//@   requires[ctx] fl.Data().InFor ==> fl.Data().CtxLo <= fl.Data().CtxHi && fl.Data().CtxHi < fl.Data().CtxID
+//@ func (For).byteCode [C05,C12,C09,C02] implements ByteCoder.byteCode
 //@   assumes[unfold] len(f.Iterators.Elems) == len(f.VarRefs.Elems) && len(f.Iterators.Elems) >= 1 && wfAST(f.Body)
 //@       && (forall k :: 0 <= k && k < len(f.Iterators.Elems) ==> exprOK(f.Iterators.Elems[k]))
 //@       && (forall k :: 0 <= k && k < len(f.VarRefs.Elems) ==> varRefOK(f.VarRefs.Elems[k]))
-//@   modifies *
 //@   atcall f.Body.byteCode with (callee_fl bc.Pass) requires[outer_lo_inherited;C09,C02] fl.Data().InFor ==> callee_fl.Data().CtxLo == fl.Data().CtxLo
-//@   loop 0 invariant[iters] -1 <= rangeindex && rangeindex < len(f.Iterators.Elems) && crOK(cr) && len(*cr.CS) >= old(len(*cr.CS)) && fresh(jmpAddrs) && 0 <= ccontAddr && ccontAddr <= len(*cr.CS)
-//@       && (rangeindex >= 0 ==> ccontAddr < len(*cr.CS))
-//@       && (forall j :: 0 <= j && j < len(jmpAddrs) ==> 0 <= jmpAddrs[j] && jmpAddrs[j] < len(*cr.CS))
-//@   loop 1 invariant[vars] -1 <= rangeindex__2 && rangeindex__2 < len(f.VarRefs.Elems) && crOK(cr) && 0 <= ccontAddr && ccontAddr < len(*cr.CS)
-//@       && (forall j :: 0 <= j && j < len(jmpAddrs) ==> 0 <= jmpAddrs[j] && jmpAddrs[j] < len(*cr.CS))
-//@   loop 2 invariant[patch] -1 <= rangeindex__3 && rangeindex__3 < len(jmpAddrs) && crOK(cr) && 0 <= ccontAddr && ccontAddr < len(*cr.CS)
-//@       && (forall j :: 0 <= j && j < len(jmpAddrs) ==> 0 <= jmpAddrs[j] && jmpAddrs[j] < len(*cr.CS))
+//@   loop 0 invariant[iters] -1 <= rangeindex && rangeindex < len(f.Iterators.Elems) && emitInv(cr) && fresh(jmpAddrs) && old(len(*cr.CS)) <= ccontAddr && ccontAddr <= len(*cr.CS)
+//@       && (rangeindex >= 0 ==> ccontAddr < len(*cr.CS) && bcop((*cr.CS)[ccontAddr]) == bytecode.CCONT)
+//@       && (forall j :: 0 <= j && j < len(jmpAddrs) ==> old(len(*cr.CS)) <= jmpAddrs[j] && jmpAddrs[j] < len(*cr.CS) && bcop((*cr.CS)[jmpAddrs[j]]) == bytecode.JMP)
+//@   loop 1 invariant[vars] -1 <= rangeindex__2 && rangeindex__2 < len(f.VarRefs.Elems) && emitInv(cr) && old(len(*cr.CS)) <= ccontAddr && ccontAddr < len(*cr.CS) && bcop((*cr.CS)[ccontAddr]) == bytecode.CCONT
+//@       && (forall j :: 0 <= j && j < len(jmpAddrs) ==> old(len(*cr.CS)) <= jmpAddrs[j] && jmpAddrs[j] < len(*cr.CS) && bcop((*cr.CS)[jmpAddrs[j]]) == bytecode.JMP)
+//@   loop 2 invariant[patch] -1 <= rangeindex__3 && rangeindex__3 < len(jmpAddrs) && emitInv(cr) && old(len(*cr.CS)) <= ccontAddr && ccontAddr < len(*cr.CS) && bcop((*cr.CS)[ccontAddr]) == bytecode.CCONT
+//@       && (forall j :: 0 <= j && j < len(jmpAddrs) ==> old(len(*cr.CS)) <= jmpAddrs[j] && jmpAddrs[j] < len(*cr.CS) && bcop((*cr.CS)[jmpAddrs[j]]) == bytecode.JMP)
 //
 //@ pred whileOK(w While) bool := exprOK(w.Condition) && wfAST(w.Body) && (dyntype(w.Condition) == typeid[UnOp]() ==> exprOK(w.Condition.(UnOp).Target))
 //@ func (While).byteCode [C05,C12] implements ByteCoder.byteCode
